@@ -19,7 +19,8 @@ def variants(rep, spec, base):
 		if d:
 			rep.diff('variants', '%s trajectory differs from the batch run: %s' % (tag, simlib.fmt_diffs(d)), spec,
 					 py={'variant': tag, 'diffs': [list(map(str, x)) for x in d[:8]]}, oracle=True, theorem=THEOREM)
-	rng = random.Random(hash(str(spec['labels'])) & 0xffff)
+	import zlib
+	rng = random.Random(zlib.crc32(repr((spec['labels'], spec['T'], rep.seed)).encode()))          # stable across processes (str hashes are salted)
 	def reset_markov():
 		# the current state of a Markov disruption process is an input of the run (DisruptionProcess.disrupted, settable by the user and through
 		# network_from_edges); a simulation leaves it in its last state, so "the same network" means: with that attribute put back
